@@ -64,9 +64,8 @@ var constNames = []string{
 	"defaultHostAcceptanceMinWait", "defaultSrflxAcceptanceMinWait", "defaultPrflxAcceptanceMinWait", "defaultRelayAcceptanceMinWait",
 	"defaultMaxBindingRequests", "maxBindingRequestTimeout", "defaultSTUNGatherTimeout",
 	"maxBufferSize", "maxBindingRequestTimeout",
-	"udpMuxWriteBlocked", "udpMuxWriteDeadlineSet", "udpMuxWriteFlagsMask", "udpMuxWriteCountMask", "udpMuxWriteCountUnit",
+	"udpMuxWriteBlockedBit", "udpMuxWriteDeadlineBit", "udpMuxWriteCountMask",
 	"DefaultNominationAttribute",
-	"tcpMuxFirstPacketMaxSize", "maxInboundSTUNSize",
 }
 
 type gen struct {
